@@ -274,14 +274,15 @@ func (a *Analysis) dropDead(b *cfg.Block, st State) State {
 	// only facts that are about dead variables alone (v op constant, boolean v):
 	// relations between a dead variable and live terms may still connect live terms
 	onlyDead := func(t *Term) bool {
+		// every variable the term mentions is dead (fields, cells and calls over dead variables included)
 		return !t.Mentions(func(s *Term) bool {
 			switch s.K {
 			case 'v':
 				return !dead(s)
-			case 'c', 'n', 'b', 'u':
-				return false
+			case 'o':
+				return true
 			}
-			return true
+			return false
 		})
 	}
 	// dead variables that are related to live terms by some atom are kept entirely
@@ -664,6 +665,8 @@ func (a *Analysis) flowBlock(b *cfg.Block, idx int, st State) []State {
 			st = a.callKills(st, cond)
 		}
 		fm := f.Eng.Canon.Formula(f.Info, cond)
+		// whatever the outcome, the left-most operand chain was evaluated: the pointers it went through are non-nil
+		st = st.Assume(derefFacts(fm))
 		outs[0] = a.clean(st.Assume(fm))
 		outs[1] = a.clean(st.Assume(Not(fm)))
 	case b.Kind == cfg.KindRangeLoop && len(b.Succs) == 2:
@@ -739,6 +742,33 @@ func (a *Analysis) clean(st State) State {
 	return st.Kill(func(at *Atom) bool {
 		return at.Mentions(func(t *Term) bool { return t.K == 'v' && t.Obj != nil && f.volatile[t.Obj] })
 	})
+}
+
+// derefFacts: for the always-evaluated part of a condition (the left-most
+// operand chain of && / ||), every pointer a field was selected through is
+// non-nil afterwards (otherwise the evaluation would have panicked).
+func derefFacts(f *Formula) *Formula {
+	for f.Op == '&' || f.Op == '|' || f.Op == '!' {
+		f = f.Sub[0]
+	}
+	if f.Op != 'A' {
+		return True
+	}
+	var out []*Formula
+	seen := map[string]bool{}
+	for _, t := range f.Atom.Terms() {
+		t.Mentions(func(s *Term) bool {
+			if s.K == 'f' && len(s.A) == 1 && s.A[0].Typ != nil {
+				if _, isPtr := s.A[0].Typ.Underlying().(*types.Pointer); isPtr && !seen[s.A[0].key] && s.A[0].K == 'i' {
+					// only slice cells: parameters and locals assigned from calls are not worth the extra state
+					seen[s.A[0].key] = true
+					out = append(out, FNotNil(s.A[0]))
+				}
+			}
+			return false
+		})
+	}
+	return And(out...)
 }
 
 // StateBefore returns the facts just before the CFG node containing n.
@@ -965,12 +995,43 @@ func (a *Analysis) killVar(st State, obj types.Object) State {
 		}
 		n := newDisj()
 		ok := true
+		// terms t that mention the dying variable and are known equal to a term x that does not:
+		// facts about t are carried over to x before they are dropped
+		type alias struct{ t, x *Term }
+		var aliases []alias
+		if repl == nil {
+			mentionsV := func(t *Term) bool { return t.Mentions(func(s *Term) bool { return s.K == 'v' && s.Obj == obj }) }
+			for _, l := range d.L {
+				if l.A.Op != "eq" || l.Neg {
+					continue
+				}
+				if mentionsV(l.A.L) && !mentionsV(l.A.R) && l.A.R.K != 'c' && l.A.R.K != 'n' {
+					aliases = append(aliases, alias{l.A.L, l.A.R})
+				} else if mentionsV(l.A.R) && !mentionsV(l.A.L) && l.A.L.K != 'c' && l.A.L.K != 'n' {
+					aliases = append(aliases, alias{l.A.R, l.A.L})
+				}
+			}
+		}
 		for _, l := range d.L {
 			if !l.A.Mentions(func(t *Term) bool { return t.K == 'v' && t.Obj == obj }) {
 				n.L[l.A.key] = l
 				continue
 			}
 			if repl == nil {
+				for _, al := range aliases {
+					if !l.A.Mentions(func(t *Term) bool { return t.key == al.t.key }) {
+						continue
+					}
+					na := l.A.Subst(al.t.key, al.x)
+					if na.Mentions(func(t *Term) bool { return t.K == 'v' && t.Obj == obj }) {
+						continue
+					}
+					if fm := foldAtom(na); fm.Op == 'A' {
+						if _, dup := n.L[na.key]; !dup {
+							n.L[na.key] = Lit{A: na, Neg: l.Neg}
+						}
+					}
+				}
 				continue
 			}
 			na := l.A.Subst(vkey, repl)
@@ -1082,6 +1143,40 @@ func (a *Analysis) assign(st State, lhs, rhs ast.Expr, tok token.Token) State {
 		pos := st.Assume(And(rf, FBool(ltm)))
 		neg := st.Assume(And(Not(rf), Not(FBool(ltm))))
 		return Join(pos, neg)
+	}
+	// allocation facts: fresh storage is non-nil, a made slice has the given length
+	switch x := ast.Unparen(rhs).(type) {
+	case *ast.UnaryExpr:
+		if x.Op == token.AND {
+			st = st.Assume(FNotNil(ltm))
+		}
+	case *ast.CompositeLit:
+		switch lt.Underlying().(type) {
+		case *types.Map, *types.Slice:
+			st = st.Assume(FNotNil(ltm))
+			if len(x.Elts) == 0 {
+				st = st.Assume(FEq(LenOf(ltm), ConstInt(0)))
+			}
+		}
+	case *ast.CallExpr:
+		if id, ok := x.Fun.(*ast.Ident); ok {
+			if b, ok := f.Info.ObjectOf(id).(*types.Builtin); ok {
+				switch b.Name() {
+				case "new":
+					st = st.Assume(FNotNil(ltm))
+				case "make":
+					st = st.Assume(FNotNil(ltm))
+					if len(x.Args) >= 2 {
+						if _, isSlice := lt.Underlying().(*types.Slice); isSlice {
+							n := a.term(x.Args[1])
+							if f.Eng.Canon.PureTerm(n) && !n.Mentions(func(s *Term) bool { return s.key == ltm.key }) {
+								st = st.Assume(FEq(LenOf(ltm), n))
+							}
+						}
+					}
+				}
+			}
+		}
 	}
 	if rt == nil || selfRef(rt) || !f.Eng.Canon.PureTerm(rt) {
 		return st
